@@ -31,15 +31,16 @@ LT == <<[bytes |-> 10, u16 |-> 7, chars |-> 7, nb |-> <<2, 6, 7>>, wsmb |-> <<5,
 PosOf == [valid |-> <<0, 1>>, pastEol |-> <<0, 19>>, pastEof |-> <<5, 0>>, insideMb |-> <<0, 2>>, afterMb |-> <<0, 3>>, wordAfterMbDelim |-> <<0, 6>>]
 PosClasses == DOMAIN PosOf
 
-VARIABLES s, disk, hist
-vars == <<s, disk, hist>>
+VARIABLES s, disk, hist,
+          synced      \* FALSE from a write to the disk (by another program: a checkout, `mos format') until the next notification makes the server read again
+vars == <<s, disk, hist, synced>>
 
 Ok(b) == Resolvable(disk, b, "cfg", EntryOf)
 MainE(b) == EntryFile(disk, b, "cfg", EntryOf)
 TreeNow(b) == IF Ok(b) THEN TreeOf(Eff(disk, b)) ELSE {}
 Init == /\ disk \in [Files -> {"ma", "mb", NoText, "ia", "ix", "ca"}] /\ disk["main"] \in {"ma", "mb", NoText} /\ disk["inc"] \in {"ia", "ix"}
         /\ disk["cfg"] = "ca"
-        /\ s = S0(disk, disk["main"] # NoText, "main") /\ hist = <<>>          \* (the configuration on disk names main)
+        /\ s = S0(disk, disk["main"] # NoText, "main") /\ hist = <<>> /\ synced = TRUE          \* (the configuration on disk names main)
 
 Ev(k, f, t) == [k |-> k, f |-> f, t |-> t]
 NewS(b) == Eff(disk, b)
@@ -86,24 +87,40 @@ Request(kind, f, pc) ==
   /\ UNCHANGED disk
 
 Notif == \E f \in Files : (\E t \in TextsOf[f] : DidOpen(f, t) \/ DidChange(f, t)) \/ DidClose(f)
-NextDesign == Notif \/ NonFile \/ Malformed \/ Unknown \/ (\E kind \in Kinds : NonUtf8(kind)) \/ (\E f \in {"main", "inc"} : DidChange0(f) \/ \E t1, t2 \in TextsOf[f] : DidChange2(f, t1, t2)) \/ \E kind \in Kinds, f \in {"main", "inc", "other"}, pc \in PosClasses : Request(kind, f, pc)
-NextGen == Notif \/ Request("rename", "main", "valid")
+(* The disk is part of the environment: another program rewrites a file that the analysis has read.  The server is not told;  *)
+(* what it has analysed is out of date until the next didOpen / didChange / didClose, each of which analyses the project       *)
+(* again from the buffers and the disk as it is then - also when the notification itself brings nothing new (a file opened    *)
+(* with the very text it has on disk).                                                                                          *)
+DiskTexts == [main |-> {"ma", "mb"}, inc |-> {"ia", "ix"}]
+DiskWrite(f, t) == /\ s.alive /\ disk[f] # t /\ disk' = [disk EXCEPT ![f] = t]
+                   /\ hist' = Append(hist, Ev("disk", f, t)) /\ UNCHANGED s
+Reads == Notif \/ (\E f \in {"main", "inc"} : \E t1, t2 \in TextsOf[f] : DidChange2(f, t1, t2))
+Others == NonFile \/ Malformed \/ Unknown \/ (\E kind \in Kinds : NonUtf8(kind)) \/ (\E f \in {"main", "inc"} : DidChange0(f)) \/ \E kind \in Kinds, f \in {"main", "inc", "other"}, pc \in PosClasses : Request(kind, f, pc)
+NextDesign == (Reads /\ synced' = TRUE) \/ (Others /\ UNCHANGED synced) \/ (Deviations = {} /\ \E f \in DOMAIN DiskTexts : \E t \in DiskTexts[f] : DiskWrite(f, t) /\ synced' = FALSE)     \* (the readings of the pinned commit are explored without it: their witnesses do not speak about the disk)
+NextGen == ((Notif /\ synced' = TRUE) \/ (Request("rename", "main", "valid") /\ UNCHANGED synced))
+(* histories with one write to the disk, for the implementation (exported only when the write is followed by a notification) *)
+NDisk(h) == Cardinality({i \in 1..Len(h) : h[i].k = "disk"})
+NextGenDisk == (\E f \in {"main", "inc"} : ((\E t \in TextsOf[f] \ {"mx", "ir"} : DidOpen(f, t) \/ DidChange(f, t)) \/ DidClose(f)) /\ synced' = TRUE)
+               \/ (NDisk(hist) = 0 /\ \E f \in DOMAIN DiskTexts : \E t \in DiskTexts[f] : DiskWrite(f, t) /\ synced' = FALSE)
+SpecGenDisk == Init /\ [][NextGenDisk]_vars
+EmitDiskCase == (NDisk(hist) = 1 /\ synced) => PrintT(<<"CASE", ToJson([hist |-> hist, main |-> disk["main"]])>>)
 SpecDesign == Init /\ [][NextDesign]_vars
 SpecGen == Init /\ [][NextGen]_vars
-DesignView == <<s, disk>>
+DesignView == <<s, disk, synced>>
 HistBound == Len(hist) <= MaxHist
+GenDiskInit == hist = <<>> => (disk["inc"] = "ia" /\ disk["main"] = "ma")     \* the exported histories with a disk write start from layout A
 GenInit == disk["inc"] = "ia" /\ disk["main"] \in {"ma", NoText}     \* exported scripts run on two disk layouts: entry file on disk / only ever a buffer
 
 (* ---------------------------------------------------------------- properties *)
 EffNow == Eff(disk, s.cli)
 SeenA(fm) == [f \in TreeOf(fm) |-> fm[f]]
-InvFreshAnalysis == s.alive => FreshAnalysis(s, disk, Ok(s.cli), MainE(s.cli), SeenA)
-InvFreshShown == s.alive => FreshShown(s, disk, TreeNow(s.cli), LAMBDA g : DiagOf(EffNow, g))
+InvFreshAnalysis == (s.alive /\ synced) => FreshAnalysis(s, disk, Ok(s.cli), MainE(s.cli), SeenA)
+InvFreshShown == (s.alive /\ synced) => FreshShown(s, disk, TreeNow(s.cli), LAMBDA g : DiagOf(EffNow, g))
 InvTotal == Total(s)
 (* ... weakened only by the witnesses of the recorded deviations *)
 DroppedOnly == \A g \in Files : s.shown[g] # (IF g \in TreeNow(s.cli) THEN DiagOf(EffNow, g) ELSE "none") => g \notin TreeNow(s.cli)
-InvFreshAnalysisW == s.alive => (FreshAnalysis(s, disk, Ok(s.cli), MainE(s.cli), SeenA) \/ CloseWitness(s) \/ TaintWitness(s) \/ LagWitness(s))
-InvFreshShownW == s.alive => (FreshShown(s, disk, TreeNow(s.cli), LAMBDA g : DiagOf(EffNow, g)) \/ CloseWitness(s) \/ LagWitness(s) \/ DroppedOnly)
+InvFreshAnalysisW == (s.alive /\ synced) => (FreshAnalysis(s, disk, Ok(s.cli), MainE(s.cli), SeenA) \/ CloseWitness(s) \/ TaintWitness(s) \/ LagWitness(s))
+InvFreshShownW == (s.alive /\ synced) => (FreshShown(s, disk, TreeNow(s.cli), LAMBDA g : DiagOf(EffNow, g)) \/ CloseWitness(s) \/ LagWitness(s) \/ DroppedOnly)
 InvTotalW == s.alive \/ s.death \in Deviations
 TypeOK == /\ s.alive \in BOOLEAN /\ s.taint \in BOOLEAN /\ s.stale \subseteq Files
           /\ \A f \in Files : s.buf[f] \in TextsOf[f] \cup {NoText} /\ s.an[f] \in TextsOf[f] \cup {NoText}
